@@ -43,6 +43,10 @@ meta={'property':prop,'name':name,'origin':'sub-agent given only the property te
  'needs_to_manifest':notes.strip().split('\n')[0:12],
  'confirmed':{'compiles':True,'existing_suite_passes_with_patch':True,'demo_fails_with_patch':True,'demo_passes_without_patch':True,'how':'bin/seedeval.sh in scratch worktree /tmp/wt-eval'},
  'checks_run':checks.split(),'caught_by':caught.split()}
+import os
+if os.path.exists('/verif/seeded/%s/meta.json'%name):
+    old=json.load(open('/verif/seeded/%s/meta.json'%name))
+    meta['first_evaluation']=old.get('first_evaluation', {'checks_run':old.get('checks_run'),'caught_by':old.get('caught_by')})
 json.dump(meta,open('/verif/seeded/%s/meta.json'%name,'w'),indent=1)
 EOP
 if [ -n "$caught" ]; then res "CAUGHT by$caught"; else res "MISSED by $CHECKS"; fi
